@@ -44,6 +44,7 @@ def trace_job(args):
     r.distinct.add((seed, idx))
     r.coverage["configs"] = 1
     r.coverage["cycles"] = cs["cycles"]
+    r.coverage["configs_meeting_theorem_hypotheses_WF2"] = int(cs["wf2"])
     r.coverage["memtypes"] = {cfg["memtype"] + "_1:%d" % cfg["nphases"]: 1}
     if cs["mismatch"]:
         r.mismatches.append(dict(where="LiteDRAMController vs Model/Controller.lean", config=cfg, **cs["mismatch"]))
